@@ -4,15 +4,16 @@
 //
 // Monitor over the REAL vrf.VRFGenProve / VRFVerify / VRFProof2Hash,
 // ed25519.ECVRFVerify and logical.validateProve (hook H3c):
-//   honest   completeness, determinism of proving, big.Int transport (searching
-//            for proofs whose encoding starts with 1, 2 (3 in thorough) zero bytes)
-//   flip     every / sampled single-bit mutation of proof, message, public key
-//   forge    the harness as adversarial prover (hook H5 + public edwards25519):
-//            (Gamma+E, c, s) for each non-trivial small-order point E, s+q,
-//            over-long, truncated proofs; every accepted proof must carry the
-//            honest output (first 32 bytes)
-//   qual     validateProve against an exact math/big.Rat oracle at and around every
-//            threshold j*stakeRatio/MaxQN*(2^256-1)
+//
+//	honest   completeness, determinism of proving, big.Int transport (searching
+//	         for proofs whose encoding starts with 1, 2 (3 in thorough) zero bytes)
+//	flip     every / sampled single-bit mutation of proof, message, public key
+//	forge    the harness as adversarial prover (hook H5 + public edwards25519):
+//	         (Gamma+E, c, s) for each non-trivial small-order point E, s+q,
+//	         over-long, truncated proofs; every accepted proof must carry the
+//	         honest output (first 32 bytes)
+//	qual     validateProve against an exact math/big.Rat oracle at and around every
+//	         threshold j*stakeRatio/MaxQN*(2^256-1)
 package main
 
 import (
@@ -58,11 +59,12 @@ type Case struct {
 	Target string `json:"target,omitempty"` // proof | short-proof | msg | pk
 	Bit    int    `json:"bit,omitempty"`
 	// forge
-	Variant string `json:"variant,omitempty"` // small-order | s-plus-q | overlong | zero-prefix | truncated
-	J       int    `json:"j,omitempty"`       // small-order point index (E = j*T8)
-	R       int    `json:"r,omitempty"`       // guessed c mod ord(E)
-	Nonce   int    `json:"nonce,omitempty"`
+	Variant string  `json:"variant,omitempty"` // small-order | s-plus-q | overlong | zero-prefix | truncated
+	J       int     `json:"j,omitempty"`       // small-order point index (E = j*T8)
+	R       int     `json:"r,omitempty"`       // guessed c mod ord(E)
+	Nonce   int     `json:"nonce,omitempty"`
 	Extra   mon.Hex `json:"extra,omitempty"` // bytes appended (overlong)
+	Pair    int     `json:"pair,omitempty"`  // index of the (key, message) pair in the run (ordering only)
 	// qual
 	Proof         mon.Hex `json:"proof,omitempty"` // proof bytes handed to validateProve
 	Height        uint64  `json:"height,omitempty"`
@@ -397,6 +399,41 @@ func addL(pi []byte) []byte {
 	return o
 }
 
+type secondOutput struct {
+	sig, what string
+	c         Case
+}
+
+var secondOutputs []secondOutput
+
+// flushSecondOutputs emits the collected second-output violations in a fixed
+// order (smallest pair index, point index, variant, guess first).
+func flushSecondOutputs(r *mon.Run) {
+	qualMu.Lock()
+	vs := secondOutputs
+	secondOutputs = nil
+	qualMu.Unlock()
+	sort.Slice(vs, func(i, j int) bool {
+		a, b := vs[i].c, vs[j].c
+		if a.Pair != b.Pair {
+			return a.Pair < b.Pair
+		}
+		if a.J != b.J {
+			return a.J < b.J
+		}
+		if a.Variant != b.Variant {
+			return a.Variant < b.Variant
+		}
+		if a.R != b.R {
+			return a.R < b.R
+		}
+		return bytes.Compare(a.Extra, b.Extra) < 0
+	})
+	for _, v := range vs {
+		r.Violation(v.sig, v.what, v.c)
+	}
+}
+
 // judgeForged hands one crafted proof to the real verifier; every accepted one
 // must carry the honest output.
 func judgeForged(r *mon.Run, c Case, honest, forged []byte) {
@@ -418,7 +455,9 @@ func judgeForged(r *mon.Run, c Case, honest, forged []byte) {
 				what += fmt.Sprintf(", Gamma + %d*T8 of order %d, c mod ord = %d", c.J, torsOrd[c.J], c.R)
 			}
 			what += fmt.Sprintf(") %x; crafted proof %x", []byte(outF), forged)
-			r.Violation(sig, what, c)
+			qualMu.Lock()
+			secondOutputs = append(secondOutputs, secondOutput{sig: sig, what: what, c: c})
+			qualMu.Unlock()
 		}
 	})
 }
@@ -479,7 +518,7 @@ func forgeAll(r *mon.Run, sk, m, honest []byte, idx int) {
 		r.Count("prover_gamma_mismatch", 1)
 		return
 	}
-	base := Case{Kind: "forge", SK: sk, Msg: m}
+	base := Case{Kind: "forge", SK: sk, Msg: m, Pair: idx}
 	for j := 1; j <= 7; j++ {
 		got0, gotN := false, false
 		for n := 0; n < 160 && !(got0 && gotN); n++ {
@@ -1009,6 +1048,7 @@ func replay(r *mon.Run, path string) {
 		fmt.Println("MACHINERY: unknown case kind in replay:", c.Kind)
 		os.Exit(2)
 	}
+	flushSecondOutputs(r)
 	flushAboveMax(r)
 	flushQualPanics(r)
 	cleanup()
@@ -1213,6 +1253,7 @@ func main() {
 		r.DistinctHash("qual", hash64(c.Proof[:32], u64(c.Height), u64(c.WorkingMiners), u64(c.TotalStake)))
 	})
 	phase("C qualification")
+	flushSecondOutputs(r)
 	flushAboveMax(r)
 	flushQualPanics(r)
 
